@@ -37,6 +37,7 @@ type Ctx struct {
 	Funcs   []*ssa.Function
 	FuncBy  map[string]*ssa.Function
 	LibPkgs []string
+	ClientFuncs []*ssa.Function // functions of the client packages (test, demo), loaded on demand
 
 	eff     *effEngine
 	rng     *rangeEngine
@@ -131,6 +132,9 @@ func loadWith(repo, tier, goarch string, tests bool, minLib int) (*Ctx, error) {
 			continue
 		}
 		if isClientPkg(fn.Pkg.Pkg.Name()) {
+			if fn.Blocks != nil {
+				c.ClientFuncs = append(c.ClientFuncs, fn)
+			}
 			continue
 		}
 		if fn.Blocks == nil {
@@ -139,6 +143,28 @@ func loadWith(repo, tier, goarch string, tests bool, minLib int) (*Ctx, error) {
 		c.Funcs = append(c.Funcs, fn)
 		c.FuncBy[fname(fn)] = fn
 	}
+	if tests {
+		seen := map[*ssa.Function]bool{}
+		for _, f := range c.ClientFuncs {
+			seen[f] = true
+		}
+		for fn := range ssautil.AllFunctions(prog) {
+			if fn.Pkg == nil || fn.Blocks == nil || seen[fn] {
+				continue
+			}
+			pp := fn.Pkg.Pkg.Path()
+			if strings.HasPrefix(pp, c.ModPath) && isClientPkg(fn.Pkg.Pkg.Name()) {
+				c.ClientFuncs = append(c.ClientFuncs, fn)
+			}
+			if strings.HasPrefix(pp, c.ModPath+"/test") {
+				if !seen[fn] {
+					c.ClientFuncs = append(c.ClientFuncs, fn)
+					seen[fn] = true
+				}
+			}
+		}
+	}
+	sort.Slice(c.ClientFuncs, func(i, j int) bool { return c.ClientFuncs[i].String() < c.ClientFuncs[j].String() })
 	sort.Slice(c.Funcs, func(i, j int) bool { return fname(c.Funcs[i]) < fname(c.Funcs[j]) })
 	c.eff = newEffEngine(c)
 	c.tables = newTableEval(c)
